@@ -167,7 +167,13 @@ impl Op {
             );
             let mut next_param = parameters.next(def);
             next_param.definition = macro_definition;
-            return Op::op(next_param, ctx)?.handle_inversion(inverted);
+            let mut op = Op::op(next_param, ctx)?.handle_inversion(inverted)?;
+            for key in ["omit_fwd", "omit_inv"] {
+                if given(key) {
+                    op.params.boolean.insert(key);
+                }
+            }
+            return Ok(op);
         }
 
         // A built in operator?
